@@ -395,13 +395,13 @@ var extraGens = map[string]func(*Gen, int) error{}
 
 func (g *Gen) genC01(n int) error {
 	if n == 0 {
-		n = g.tierN(60, 1500)
+		n = g.tierN(480, 9000)
 	}
 	for i := 0; i < n; i++ {
 		g.emit("note case %d", i)
 		g.setMode()
 		cfg := g.defaultCfg()
-		if g.tier == "thorough" && i%200 == 199 {
+		if (g.tier == "thorough" && i%200 == 199) || (g.tier == "quick" && i%240 == 239) {
 			// large batch so that cardinalities cross 1024
 			cfg.minDocs, cfg.maxDocs = 1100, 2300
 			cfg.maxFields = 2
@@ -426,7 +426,7 @@ func (g *Gen) genC01(n int) error {
 
 func (g *Gen) genC02(n int) error {
 	if n == 0 {
-		n = g.tierN(60, 1500)
+		n = g.tierN(480, 9000)
 	}
 	for i := 0; i < n; i++ {
 		g.emit("note case %d", i)
@@ -465,7 +465,7 @@ func (g *Gen) genC02(n int) error {
 
 func (g *Gen) genC03(n int) error {
 	if n == 0 {
-		n = g.tierN(60, 1500)
+		n = g.tierN(480, 9000)
 	}
 	dvChunks := []int{1, 2, 3, 5, 1024}
 	defer g.emit("cfg dvchunk=1024")
@@ -521,7 +521,7 @@ func (g *Gen) genC03(n int) error {
 
 func (g *Gen) genC04(n int) error {
 	if n == 0 {
-		n = g.tierN(40, 800)
+		n = g.tierN(320, 4800)
 	}
 	for i := 0; i < n; i++ {
 		g.emit("note case %d", i)
@@ -688,7 +688,7 @@ func (g *Gen) genMergeCase(cfgMod func(*batchCfg), dump func(seg string), depth 
 
 func (g *Gen) genMerge(prop string, n int) error {
 	if n == 0 {
-		n = g.tierN(40, 1000)
+		n = g.tierN(320, 6000)
 	}
 	for i := 0; i < n; i++ {
 		g.emit("note case %d", i)
@@ -837,7 +837,7 @@ func (g *Gen) genC07(n int) error {
 		g.emit("close %s", mm)
 	}
 	// random larger instances with prealloc reuse histories and ReplaceActual
-	nr := g.tierN(150, 4000)
+	nr := g.tierN(1500, 30000)
 	for i := 0; i < nr; i++ {
 		g.emit("note random case %d", i)
 		g.setMode()
@@ -895,7 +895,7 @@ func (g *Gen) genC07(n int) error {
 				g.st("rand.prealloc")
 			}
 			if g.chance(0.2) {
-				line += " replace=" + g.pick([]string{"*", "-", g.randDrops(nd)})
+				line += " replace=" + g.pick([]string{"*", "sub:0", fmt.Sprintf("sub:%d", g.r.Intn(1<<16)), fmt.Sprintf("sub:%d", g.r.Intn(1<<16))})
 				g.st("rand.replace")
 			}
 			g.emit("%s ops=%s", line, strList(ops))
@@ -910,7 +910,7 @@ func (g *Gen) genC07(n int) error {
 
 func (g *Gen) genC08(n int) error {
 	if n == 0 {
-		n = g.tierN(40, 1000)
+		n = g.tierN(320, 6000)
 	}
 	for i := 0; i < n; i++ {
 		g.emit("note case %d", i)
@@ -1008,7 +1008,7 @@ func (g *Gen) randRange(terms []string) (string, string) {
 
 func (g *Gen) genEnc(n int) error {
 	if n == 0 {
-		n = g.tierN(300, 5000)
+		n = g.tierN(2400, 30000)
 	}
 	grid := []uint64{0, 1, 2, 3, 127, 128, 129, 1023, 1024, 1025, 2047, 2048, 2049, 3071, 3072, 5000, 16383, 16384, 1 << 20, 1<<31 - 1, 1 << 31, 1<<32 - 1, 1 << 32, 1<<63 - 1, 1 << 63, 1<<64 - 1}
 	for _, m := range []uint64{0, 1, 2, 3, 7, 1023, 1024, 1025, 1026, 1027, 5000} {
